@@ -200,6 +200,7 @@ func (ev *Evaluator) Call(fn *ssa.Function, args []Val, free []Val, st *State) V
 	order := topoAll(fn)
 	loops := loopDescs(fn, order)
 	unrolled := map[*ssa.BasicBlock]bool{}
+	tailDone := map[*ssa.BasicBlock]bool{} // break bodies executed as part of an unrolled loop (per sweep)
 	sweeps := 1
 	if !acyclic(fn) {
 		sweeps = 2
@@ -439,8 +440,17 @@ func (ev *Evaluator) Call(fn *ssa.Function, args []Val, free []Val, st *State) V
 				outS[k] = v
 			}
 			nev, nret, ctxS, curS := len(ev.Events), len(rets), ev.ctx, ev.curCond
+			tailS := map[*ssa.BasicBlock]bool{}
+			for k := range tailDone {
+				tailS[k] = true
+			}
 			rollback := func() bool {
 				fr.env = envS
+				for k := range tailDone {
+					if !tailS[k] {
+						delete(tailDone, k)
+					}
+				}
 				for k := range cond {
 					delete(cond, k)
 				}
@@ -465,6 +475,19 @@ func (ev *Evaluator) Call(fn *ssa.Function, args []Val, free []Val, st *State) V
 				return false
 			}
 			h := ld.header
+			// the body of an `if c { ...; break }` lies outside the natural loop but belongs to the
+			// iteration that leaves: straight-line blocks entered only from the loop
+			tail := map[*ssa.BasicBlock]bool{}
+			var tails []*ssa.BasicBlock
+			for _, b := range order {
+				if ld.in[b] || len(b.Preds) != 1 || len(b.Succs) != 1 || loops[b] != nil {
+					continue
+				}
+				if p := b.Preds[0]; p != h && (ld.in[p] || tail[p]) {
+					tail[b] = true
+					tails = append(tails, b)
+				}
+			}
 			exitAcc := map[edge]*Term{}
 			exitSt := map[edge]State{}
 			var ui *unrollIn
@@ -492,7 +515,7 @@ func (ev *Evaluator) Call(fn *ssa.Function, args []Val, free []Val, st *State) V
 					break
 				}
 				for _, b := range ld.order[1:] {
-					if ld.innerBlock[b] {
+					if ld.innerBlock[b] || tailDone[b] {
 						continue // evaluated by its own (inner) loop
 					}
 					if inner := loops[b]; inner != nil {
@@ -501,6 +524,9 @@ func (ev *Evaluator) Call(fn *ssa.Function, args []Val, free []Val, st *State) V
 						}
 						continue
 					}
+					evalBlock(b, 0, nil)
+				}
+				for _, b := range tails {
 					evalBlock(b, 0, nil)
 				}
 				// hand the back edges over to the next iteration
@@ -520,13 +546,13 @@ func (ev *Evaluator) Call(fn *ssa.Function, args []Val, free []Val, st *State) V
 				}
 				// side exits (break, the second operand of a && in the loop test)
 				exitTaken := false
-				for _, b := range ld.order[1:] {
+				for _, b := range append(append([]*ssa.BasicBlock{}, ld.order[1:]...), tails...) {
 					for _, su := range b.Succs {
-						if ld.in[su] {
+						if ld.in[su] || tail[su] {
 							continue
 						}
 						if ec, ok := econd[edge{b, su}]; ok && !ec.IsZero() {
-							if len(backIdx) != 0 && returnsLoopFreeValue(su, ld) {
+							if len(backIdx) != 0 && (returnsLoopFreeValue(su, ld) || leavesLoopFree(ld, tail)) {
 								// `if c(i) { return k }` with a symbolic c(i): the iteration leaves under
 								// c(i) and continues under !c(i). The exits of all iterations are
 								// collected and handed to the return block when the loop is done.
@@ -568,7 +594,7 @@ func (ev *Evaluator) Call(fn *ssa.Function, args []Val, free []Val, st *State) V
 					ui.phis[x] = v
 				}
 				// forget the iteration's edge conditions and block states
-				for _, b := range ld.order {
+				for _, b := range append(append([]*ssa.BasicBlock{}, ld.order...), tails...) {
 					delete(cond, b)
 					delete(outSt, b)
 					for _, su := range b.Succs {
@@ -591,12 +617,18 @@ func (ev *Evaluator) Call(fn *ssa.Function, args []Val, free []Val, st *State) V
 			}
 			ev.ctx = ctxS
 			unrolled[h] = true
+			for _, b := range tails {
+				tailDone[b] = true
+			}
 			return true
 		}
 
 		skip := map[*ssa.BasicBlock]bool{}
+		for k := range tailDone {
+			delete(tailDone, k)
+		}
 		for _, b := range order {
-			if skip[b] {
+			if skip[b] || tailDone[b] {
 				continue
 			}
 			if ld := loops[b]; ld != nil && (ld.simple || ld.sideExits) && ev.unroll {
@@ -728,6 +760,44 @@ func mergeVals(vs []Val, cs []*Term) Val {
 
 // returnsLoopFreeValue: b does nothing but return values that are not computed inside the loop
 // (constants, parameters, values defined before it).
+// leavesLoopFree: a symbolic `break` from b to su can be gated per iteration when nothing the
+// loop computes is visible after it except through memory (which is gated): no value defined in
+// the loop is used outside it, other than by a phi on an edge from the loop header (the normal
+// exit, where the last iteration's values are the right ones).
+func leavesLoopFree(ld *loopDesc, tail map[*ssa.BasicBlock]bool) bool {
+	if len(ld.order) == 0 {
+		return false
+	}
+	h := ld.order[0]
+	blocks := append([]*ssa.BasicBlock{}, ld.order...)
+	for b := range tail {
+		blocks = append(blocks, b)
+	}
+	for _, lb := range blocks {
+		for _, ins := range lb.Instrs {
+			v, ok := ins.(ssa.Value)
+			if !ok || v.Referrers() == nil {
+				continue
+			}
+			for _, ref := range *v.Referrers() {
+				if ref.Block() == nil || ld.in[ref.Block()] || tail[ref.Block()] {
+					continue
+				}
+				phi, isPhi := ref.(*ssa.Phi)
+				if !isPhi {
+					return false
+				}
+				for i, e := range phi.Edges {
+					if e == v && phi.Block().Preds[i] != h {
+						return false
+					}
+				}
+			}
+		}
+	}
+	return true
+}
+
 func returnsLoopFreeValue(b *ssa.BasicBlock, ld *loopDesc) bool {
 	if len(b.Instrs) != 1 {
 		return false
